@@ -225,7 +225,14 @@ def run(ctx):
         if ok7:
             r7 = ctx.coqc("Gen_NvDecomp.v")
             ctx.gen_obligation("Gen_NvDecomp.v type-checks", r7.ok, r7.err[-300:])
-        ctx.props("C08")
+        res08 = ctx.props("C08")
+        if res08.ok:
+            # the action laws assumed in C08.v, discharged on a concrete state space (amplitude functions over
+            # every ring with omega; Proofs/QMatAlgebra.v), and the instantiation at the complex numbers
+            import qcommon
+            rsv = ctx.props("C08_statevector")
+            if rsv.ok:
+                qcommon.complex_props(ctx, "C08_complex")
         import nv_blocks
 
         tab = nv_blocks.tables(ctx.repo)
